@@ -485,6 +485,47 @@ def make_snv(anno, genome, tx_id: str, tx_pos: int, alt: str):
                'GENE_SYMBOL': gene_model.gene_name})
 
 
+def junction_mnv(anno, genome, tx_id: str, rng: random.Random):
+    """two SNVs on the LAST base of an exon and the FIRST base of the next one (adjacent in the
+    transcript: they can only share a haplotype as the merged pair) plus the skipped-exon Deletion
+    of that next exon, whose record sorts exactly between them.  Returns [] when the transcript
+    has no such junction."""
+    _imports()
+    import random as _r
+    from moPepGen import fake
+    tx_model = anno.transcripts[tx_id]
+    if len(tx_model.exon) < 3:
+        return []
+    _r.seed(rng.randrange(1 << 30))
+    try:
+        dele = fake.fake_exon_deletion(anno, genome, tx_id, 'SE')
+    except Exception:   # noqa
+        return []
+    gene_id = tx_model.transcript.gene_id
+    try:
+        # first base (transcript order) of the deleted exon
+        g0 = anno.coordinate_gene_to_genomic(int(dele.attrs['START']), gene_id)
+        p = tx_model.get_transcript_index(g0)
+    except Exception:   # noqa
+        return []
+    if p < 1:
+        return []
+    out = [dele]
+    for q in (p - 1, p):
+        try:
+            g = anno.coordinate_transcript_to_genomic(q, tx_id)
+            start = anno.coordinate_genomic_to_gene(g, gene_id)
+            gene_model = anno.genes[gene_id]
+            ref = str(gene_model.get_gene_sequence(genome[gene_model.chrom]).seq[start:start + 1])
+            rec = make_snv(anno, genome, tx_id, q, rng.choice([c for c in 'ACGT' if c != ref]))
+        except Exception:   # noqa
+            return []
+        if rec is None:
+            return []
+        out.append(rec)
+    return out
+
+
 def plant_i_to_l(anno, genome, rng: random.Random, n: int = 2):
     """SNVs that turn an isoleucine codon of a coding transcript into a leucine codon
     (A>C at the first codon position): the variant peptide is then the I->L image of a
